@@ -90,7 +90,7 @@ def run(ctx):
     cg = repo.callgraph()
     ef = effects(repo)
     ctx.decided = ['C04.1 no shared mutable state', 'C04.2 routing', 'C04.3 naming', 'C04.4 reopen = new connection',
-                   'C04.5 close once', 'C04.6 log back end open/message/close discipline', 'C04.7 tag -> id (see C01.11)']
+                   'C04.5 close once', 'C04.6 log back end open/message/close discipline', 'C04.7 tag -> id (see C01.11)', 'C04.8 GDB back end opens / closes by address (C15.2)']
     ctx.undecided = ['independence from interleaving as an observable equality (follows from C04.1 + C02/C03, not separately checked)']
     ctx.assumptions = ['the single Controller (UI) is shared by design; its state is covered by C06/C11/C16']
     f_msg = repo.func('ConnectionManager.message')
@@ -329,5 +329,13 @@ def run(ctx):
     check_writers(ctx, 'C04.6', 'backends.libwayland_debug_output.parse.Parser', 'known_connections',
                   [('Parser.__init__', lambda w: w.fresh),
                    ('Parser.handle_message', lambda w: (w.kind == 'mutate' and w.via in ('add', 'append', 'setdefault')) or (w.kind == 'substore' and norm(w.stmt.targets[0]) == 'self.known_connections[conn_id]'))], floor=2)
+    # ---- C04.8 the GDB back end ----------------------------------------------------------------------------------------------
+    # in GDB mode the connections are opened, given their role and closed by the plugin: that it opens one on first sight, with the role taken
+    # from that connection's own first message and nothing remembered from another connection, and forgets the address when the connection is
+    # destroyed, is C15.2; its findings are findings here (a GDB-less tree has no such back end: nothing to lift)
+    if repo.try_func('Plugin.process_message') is not None:
+        from . import common as _cm4, c15 as _c15
+        _cm4.lift(ctx, 'C04.8', 'gdb-back-end-opens-and-closes', _c15, 'C15', ('C15.2',), 'a connection\'s identity and role come from its own address and first message', floor=0)
+
     return ('effect closure of the ingestion path (no shared mutable state), scenario evaluation of open/close/route, writer '
             'enumeration of the connection tables. Decided: %s. Undecided: %s' % ('; '.join(ctx.decided), '; '.join(ctx.undecided)))
